@@ -3,6 +3,7 @@ package rules
 import (
 	"fmt"
 	"go/ast"
+	"go/build"
 	"go/constant"
 	"go/token"
 	"go/types"
@@ -11,6 +12,8 @@ import (
 	"sort"
 	"strings"
 	"sync"
+
+	"golang.org/x/tools/go/ssa"
 
 	"sbpfcheck/load"
 	"sbpfcheck/tables"
@@ -72,6 +75,8 @@ func runC19(e *Env) {
 	r.Count("targets analysed", len(targets))
 	r.Floor("E4.api(targets that build)", len(targets), 49)
 
+	checkPortableCore(e, all)
+
 	var mu sync.Mutex
 	var wg sync.WaitGroup
 	sem := make(chan struct{}, 8)
@@ -116,7 +121,8 @@ func runC19(e *Env) {
 				recs = append(recs, rec{"E4.api", t + "/packages", "", "root, internal/unix or arch package missing", false, true})
 				return
 			}
-			isLinux := false
+			isLinux := parts[0] == "linux" || parts[0] == "android" // android satisfies the linux build constraint (same kernel interface)
+			realLoader := false
 			nLoader := 0
 			var files []string
 			for _, f := range root.CompiledGoFiles {
@@ -124,13 +130,20 @@ func runC19(e *Env) {
 				files = append(files, b)
 				if b == "seccomp_linux.go" {
 					nLoader++
-					isLinux = true
+					realLoader = true
 				}
 				if b == "seccomp_unsupported.go" {
 					nLoader++
 				}
 			}
 			add(nLoader == 1, "E4.api", t+"/one-loader", "", "exactly one loader implementation selected", fmt.Sprintf("%d loader implementations selected for %s (files: %v)", nLoader, t, files))
+			// the kernel interface exists on every Linux port and nowhere else: Linux targets get the real loader (a stub
+			// there makes LoadFilter return nil without installing anything), all others the stub
+			if isLinux {
+				add(realLoader, "E4.api", t+"/loader-kind", "", "the Linux loader is selected", fmt.Sprintf("%s is a Linux target but the stub loader is selected (files: %v): LoadFilter returns nil there although no filter was installed", t, files))
+			} else {
+				add(!realLoader, "E4.api", t+"/loader-kind", "", "the stub loader is selected", fmt.Sprintf("%s is not a Linux target but the Linux loader is selected", t))
+			}
 			// the three API functions exist with the same signatures
 			for _, fn := range []string{"Supported", "SetNoNewPrivs", "LoadFilter"} {
 				o, _ := root.Types.Scope().Lookup(fn).(*types.Func)
@@ -265,13 +278,13 @@ func runC19(e *Env) {
 			}
 			// vacuity guard; the three helper constants that only the Linux loader uses may live in a Linux-only file
 			minTied := 15
-			if !isLinux {
+			if !realLoader {
 				minTied = 12
 			}
 			add(nInit+nByName >= minTied, "E4.const", t+"/init/count", "", fmt.Sprintf("%d root constants initialised from internal/unix, %d compared with the kernel's value by name", nInit, nByName), fmt.Sprintf("only %d root constants are tied to internal/unix or to the kernel's values", nInit+nByName))
 
 			// stubs
-			if !isLinux {
+			if !realLoader {
 				for _, f := range root.Syntax {
 					for _, d := range f.Decls {
 						fd, ok := d.(*ast.FuncDecl)
@@ -404,4 +417,78 @@ func runC19(e *Env) {
 		r.Floor("E4.unsupported(GOARCH values)", len(goarches), 12)
 	}
 	checkAssembleGetInfoFirst(e, p, "E4.unsupported")
+}
+
+// checkPortableCore (E4.portable): "a policy compiles to the same program wherever it is compiled". The functions the
+// compiler entry points reach inside the module (static callees, closures, function values; resolved on linux/amd64) are
+// declared in files that every target of `go tool dist list` builds: there is one version of the compiler's code. What
+// differs per target is then only constants (compared with the kernel's under every target by E4.const) and type sizes
+// (C02 E1.template.target).
+func checkPortableCore(e *Env, targets []string) {
+	r := e.R
+	p := e.Host()
+	var roots []*ssa.Function
+	for _, n := range []string{"Policy.Assemble", "SyscallGroup.Assemble", "Policy.Validate", "Program.Assemble"} {
+		if f := p.Func(load.PkgRoot, n); f != nil {
+			roots = append(roots, f)
+		}
+	}
+	if len(roots) < 2 {
+		r.Unknown("E4.portable", "roots", "", "the compiler entry points were not found")
+		return
+	}
+	seen := map[*ssa.Function]bool{}
+	files := map[string][]string{}
+	var visit func(f *ssa.Function)
+	visit = func(f *ssa.Function) {
+		if f == nil || seen[f] || f.Pkg == nil || !strings.HasPrefix(f.Pkg.Pkg.Path(), load.Module) {
+			return
+		}
+		seen[f] = true
+		if f.Pos().IsValid() {
+			file := p.Fset.Position(f.Pos()).Filename
+			files[file] = append(files[file], load.FuncName(f))
+		}
+		for _, b := range f.Blocks {
+			for _, in := range b.Instrs {
+				for _, op := range in.Operands(nil) {
+					if g, ok := (*op).(*ssa.Function); ok {
+						visit(g)
+					}
+				}
+			}
+		}
+	}
+	for _, f := range roots {
+		visit(f)
+	}
+	var names []string
+	for f := range files {
+		names = append(names, f)
+	}
+	sort.Strings(names)
+	bad := 0
+	for _, file := range names {
+		var missing []string
+		for _, t := range targets {
+			parts := strings.SplitN(t, "/", 2)
+			ctx := build.Default
+			ctx.GOOS, ctx.GOARCH, ctx.CgoEnabled, ctx.BuildTags = parts[0], parts[1], true, nil
+			ok, err := ctx.MatchFile(filepath.Dir(file), filepath.Base(file))
+			if err != nil || !ok {
+				missing = append(missing, t)
+			}
+		}
+		rel, _ := filepath.Rel(e.Repo, file)
+		if len(missing) > 0 {
+			bad++
+			sort.Strings(files[file])
+			// undecided rather than violated: the other targets' version of the code may be equivalent; it was not analysed
+			r.Unknown("E4.portable", "file/"+rel, "", fmt.Sprintf("%s, which declares %s of the compiler, is not built for %d of %d targets (%s ...): those targets compile policies with other code, which was not analysed, so the program need not be the same there", rel, strings.Join(files[file], ", "), len(missing), len(targets), missing[0]))
+		}
+	}
+	if bad == 0 {
+		r.OK("E4.portable", "compiler-core", "", fmt.Sprintf("the %d functions the compiler entry points reach are declared in %d files that all %d targets build", len(seen), len(names), len(targets)))
+	}
+	r.Floor("E4.portable(functions of the compiler core)", len(seen), 15)
 }
